@@ -80,6 +80,35 @@ def ingest_anatomy(ctx: Any) -> Dict[str, Any]:
     return an
 
 
+def pair_per_live_record(ctx: Any, R: str) -> List[Ob]:
+    """Every record of the datagram whose TTL has not run out yields a (new, previous) pair for the listeners -- a refresh of
+    an already cached record included (the browser moves its refresh query on it, lookups read addresses from it)."""
+    an = ingest_anatomy(ctx)
+    f: FuncInfo = an['f']
+    cfg = cfg_of(f.node)
+    loop = an['loop']
+    head = next(n for n in cfg.nodes if n.kind == 'for' and n.ast is loop)
+    upd = set(an['updates'])
+
+    def eff(node: Any, evl: Any) -> List[Any]:
+        out = []
+        for c in fd.node_calls(node, evl):
+            if call_name(c) in MUTATORS and isinstance(c.func, ast.Attribute) and isinstance(c.func.value, ast.Name) and c.func.value.id in upd:
+                out.append('PAIR')
+        if node.kind == 'stmt' and isinstance(node.ast, ast.Assign) and isinstance(node.ast.targets[0], ast.Subscript) and isinstance(node.ast.targets[0].value, ast.Name) and node.ast.targets[0].value.id in upd:
+            out.append('PAIR')
+        return out
+
+    obs: List[Ob] = []
+    for cached in (True, False):
+        for recent in (True, False):
+            atoms = {'.is_expired()': False, '.async_get_unique()': fd.Sym('entry') if cached else None, '.is_recent()': recent, '.ttl': 120, '.type': 1, '.unique': False}
+            oc, und = fd.run_paths(ctx.prog, f.module, cfg, atoms, eff, start=head, stop=lambda n: n is head, loop_bound=1, for_iter=lambda n, e: True)
+            counts = {strip_ret(t).count('PAIR') for t in oc}
+            obs.append(ob(R, f, f'live record, {"already cached" if cached else "new"}{", cached copy recent" if cached and recent else ""}', 'exactly one (new, previous) pair is queued for the listeners', counts == {1}, f'pairs queued on the feasible paths: {sorted(counts)}'))
+    return obs
+
+
 def previous_obligations(ctx: Any, R: str) -> List[Ob]:
     """`previous` of every (new, previous) pair is exactly the result of the cache lookup for that record:
     the name handed to RecordUpdate has one definition in the loop, the unique lookup of the same record."""
@@ -159,6 +188,7 @@ def order(ctx: Any) -> List[Ob]:
     ctx.counters['record_loop_paths'] = n_paths
     if n_paths < 3:
         raise AnalysisError('record loop has fewer paths than confirmed by hand (3: new, refresh, goodbye, ignore)')
+    obs.extend(pair_per_live_record(ctx, R))
     obs.extend(previous_obligations(ctx, R))
     # collections are not written after the loop; updates is an ordered list; removes is a set
     after = False
@@ -270,6 +300,10 @@ def order(ctx: Any) -> List[Ob]:
             if any(isinstance(t, ast.Name) and t.id in upd for t in tg) and isinstance(st.value, ast.List) and not st.value.elts:
                 init_ok = True
     obs.append(ob(R, f, f'{sorted(upd)} = []', 'the pairs are collected in a list appended in datagram order', init_ok))
+    # `creation time equal to the arrival time`: what reaches this function was decoded from the datagram just received, now
+    from .c11 import fresh_message_obligations
+
+    obs.extend(fresh_message_obligations(ctx, R))
     return obs
 
 
@@ -544,6 +578,18 @@ def floorflush(ctx: Any) -> List[Ob]:
             names = [norm(e) for e in lp.target.elts]
             ok_sel = any([norm(a) for a in c.args] == names for c in sel)
     obs.append(ob(R, g, 'self.async_all_by_details(name, type_, class_)', 'the flush considers exactly the cached records of the same name, type and class', ok_sel))
+    # ... and that selector takes a record iff BOTH its type and its class are the ones asked for (decision table)
+    sel_f = prog.func('zeroconf._cache.DNSCache.async_all_by_details')
+    p_t, p_c = sel_f.params[2], sel_f.params[3]
+
+    def eff_sel(node: Any, evl: Any) -> List[Any]:
+        return ['TAKE' for c in fd.node_calls(node, evl) if call_name(c) in ('append', 'add')] + (['TAKE'] if node.kind == 'stmt' and isinstance(node.ast, ast.Expr) and isinstance(node.ast.value, (ast.Yield,)) else [])
+
+    for same_t in (True, False):
+        for same_c in (True, False):
+            ocs, unds = traces(ctx, sel_f, {p_t: 1, p_c: 1, '.type': 1 if same_t else 28, '.class_': 1 if same_c else 255, '.get()': {'r': 'r'}}, eff_sel, loop_bound=1, for_iter=lambda n, e: True)
+            took = {('TAKE' in t) for t in ocs}
+            obs.append(ob(R, sel_f, f'cached record: type {"equal" if same_t else "different"}, class {"equal" if same_c else "different"}', f'it is {"selected" if same_t and same_c else "not selected"} for the flush', took == {same_t and same_c} and not unds, f'selected on {took}; undecided {unds}'))
     return obs
 
 
